@@ -1,7 +1,8 @@
 (* Reference-level heap model: Circuit.add establishes [upd_post]. *)
 From Coq Require Import ZArith List Bool Arith Lia PArith FMapPositive.
 From LW Require Import Base.Sx Base.Num Base.Sums Base.Mat Model.Circuit Model.World Model.Rewrite Model.Heap
-     Proofs.WorldP Proofs.HeapP Proofs.HeapP2 Proofs.HeapFlat Proofs.HeapP3 Proofs.HeapP4 Proofs.HeapP5.
+     Proofs.WorldP Proofs.HeapP Proofs.HeapP2 Proofs.HeapFlat Proofs.HeapP3 Proofs.HeapP4.
+From LW Require Import Proofs.HeapP5.
 Import ListNotations.
 
 Section HeapP6.
@@ -116,7 +117,9 @@ Section HeapP6.
     Definition prel (h7 hh : heap) (pp : hcirc) (pf : circ) : Prop :=
       hframe [] h7 hh /\ hwf hh /\ cwf hh pp /\ sep_circ pp /\ abs_circ hh pp = pf /\
       (pp = c \/ (Forall (fun a => h_next h7 <=p a) (priv pp) /\ NoDup (priv pp))) /\
-      (forall a, In a (spec_cells hh (rd_list hh (hc_spec pp))) -> ~ owned p a /\ ~ In a (priv pp)).
+      (forall a, In a (spec_cells hh (rd_list hh (hc_spec pp))) -> ~ owned p a /\ ~ In a (priv pp)) /\
+      (* every entry of the parent's list is one it had before the call, or a cell made by the call *)
+      (forall a, In a (rd_list hh (hc_spec pp)) -> In a (rd_list h0 (hc_spec c)) \/ h_next h0 <=p a).
 
     Lemma anc_step h7 m (acc : heap * hcirc) (pf : circ) hm :
       h_next h0 <=p h_next h7 ->
@@ -124,7 +127,7 @@ Section HeapP6.
       prel h7 (fst (h_anc_step o m acc hm)) (snd (h_anc_step o m acc hm)) (fanc m pf hm) /\
       (Forall (fun a => h_next h7 <=p a) (priv (snd (h_anc_step o m acc hm))) /\ NoDup (priv (snd (h_anc_step o m acc hm)))).
     Proof.
-      destruct acc as [hh pp]. cbn [fst snd]. intros Hh7 (Fr & Hw & Hc & Hs & Ab & _ & Fz).
+      destruct acc as [hh pp]. cbn [fst snd]. intros Hh7 (Fr & Hw & Hc & Hs & Ab & _ & Fz & _).
       unfold h_anc_step.
       destruct (h_add_empty_mode o hh pp (rd_list hh (hc_spec pp)) (m + hm)) as [[hh1 p'] sp'] eqn:E.
       destruct (h_add_empty_mode_post o hh pp _ (m + hm) hh1 p' sp' Hw Hc (rd_list_below hh _ Hw) E)
@@ -172,6 +175,9 @@ Section HeapP6.
         rewrite Rsp, A1, P5, P6. unfold rd_nats at 1. rewrite Gint.
         rewrite !Rd by lia. rewrite P8, P9, P10, P11. reflexivity. }
       split; [right; exact FrP|].
+      split.
+      2:{ intros a Ha. unfold set_spec_ref in Ha. cbn [hc_spec] in Ha. rewrite Rsp in Ha. right.
+          rewrite Forall_forall in P14. specialize (P14 a Ha). cbv beta in P14. destruct Fr as (Fr & _). lia. }
       intros a Ha. unfold set_spec_ref in Ha. cbn [hc_spec] in Ha. rewrite Rsp, A2 in Ha.
       destruct (P13 a Ha) as (Q1 & Q2). split.
       - intros Ho. destruct Q1 as [H|H].
@@ -208,7 +214,7 @@ Section HeapP6.
       prel h7 (fold_left (h_her_step m pp) l hh) pp (fold_left (fher m) l pf).
     Proof.
       intros Hfr Hnd. induction l as [|kv l IH]; intros hh pf H; [exact H|]. cbn [fold_left]. apply IH. clear IH.
-      destruct H as (Fr & Hw & Hc & Hs & Ab & Dj & Fz).
+      destruct H as (Fr & Hw & Hc & Hs & Ab & Dj & Fz & Pv).
       destruct (cwf_fields hh pp Hc) as (L1 & L2 & L3 & L4 & L5 & L6).
       unfold priv in Hnd. destruct (nodup6 _ _ _ _ _ _ Hnd) as (D1 & D2 & D3 & D4 & D5 & D6 & D7 & D8 & D9).
       unfold h_her_step.
@@ -240,8 +246,9 @@ Section HeapP6.
         rewrite (proj2 (Pos.eqb_neq (hc_xout pp) (hc_out pp))) by exact D6.
         rewrite (proj2 (Pos.eqb_neq (hc_xout pp) (hc_in pp))) by exact D5.
         unfold rd_nats. fold h1 h2. rewrite Other by assumption. reflexivity. }
-      split; [exact Dj|].
-      intros a Ha. rewrite Rl, A2 in Ha. exact (Fz a Ha).
+      split; [exact Dj|]. split.
+      - intros a Ha. rewrite Rl, A2 in Ha. exact (Fz a Ha).
+      - intros a Ha. rewrite Rl in Ha. exact (Pv a Ha).
     Qed.
 
     Lemma abs_comp_group (h : heap) d a lst m1 m2 hi ho :
@@ -257,9 +264,16 @@ Section HeapP6.
     Proof. destruct w; reflexivity. Qed.
 
     (* ---------------- Circuit.add ---------------- *)
-    Lemma h_add_post mode g :
+    Definition add_entries (h' : heap) (r : res hcirc) : Prop :=
+      match r with
+      | Ok c' => forall a, In a (rd_list h' (hc_spec c')) -> In a (rd_list h0 (hc_spec c)) \/ h_next h0 <=p a
+      | Err _ => True
+      end.
+
+    Lemma h_add_post_full mode g :
       upd_post p h0 c (fun cf => op_add o cf (abs_circ h0 s) mode g)
-               (fst (h_add o h0 c s mode g)) (snd (h_add o h0 c s mode g)).
+               (fst (h_add o h0 c s mode g)) (snd (h_add o h0 c s mode g)) /\
+      add_entries (fst (h_add o h0 c s mode g)) (snd (h_add o h0 c s mode g)).
     Proof.
       destruct (inv_cwf _ I id c Hin) as (Hc0 & Hsc). destruct (inv_cwf _ I sid s Hsin) as (Hcs & Hss).
       cbn [hw_heap] in Hc0, Hcs.
@@ -267,7 +281,7 @@ Section HeapP6.
       set (sf := abs_circ h0 s) in *. set (cf := abs_circ h0 c).
       unfold h_add. cbv zeta.
       match goal with |- context [match ?t with Ok _ => _ | Err _ => _ end] => destruct t as [m|x] eqn:E1 end; cbn [fst snd].
-      2:{ apply (err_post p h0 c I). rewrite op_add_unfold, mode_ok_n_eq. cbn [abs_circ c_int]. rewrite E1. reflexivity. }
+      2:{ split; [|exact Logic.I]. apply (err_post p h0 c I). rewrite op_add_unfold, mode_ok_n_eq. cbn [abs_circ c_int]. rewrite E1. reflexivity. }
       (* the two copies *)
       destruct (h_copy_circ h0 s) as [h1 cc0] eqn:Ecp.
       destruct (h_copy_circ_post h0 s h1 cc0 Hw0 Hcs Ecp) as (F1 & W1 & C1 & A1 & Fr1 & ND1 & Sp1 & RL1 & N1).
@@ -316,7 +330,7 @@ Section HeapP6.
       assert (Eout : rd_dict h3 (hc_out w) = c_out w0f) by (rewrite <- A3; reflexivity).
       rewrite En, Ein, Eout.
       match goal with |- context [if ?b then _ else _] => destruct b eqn:E2 end; cbn [fst snd].
-      { split; [apply hframe_nil; exact F03|]. split; [exact W3|]. split; [|exact F03].
+      { split; [|exact Logic.I]. split; [apply hframe_nil; exact F03|]. split; [exact W3|]. split; [|exact F03].
         rewrite op_add_unfold, mode_ok_n_eq. cbn [abs_circ c_int c_n]. rewrite E1. cbv zeta. fold sf grp w0f.
         rewrite E2. reflexivity. }
       assert (EF : forall r, add_body cf w0f m grp = r -> op_add o cf sf mode g = r).
@@ -333,7 +347,7 @@ Section HeapP6.
         - split; [exact F03|]. split; [exact W3|]. split; [exact C3|]. split; [rewrite set_spec_eta; exact A3|].
           intros a Ha. exact (proj1 (Fz3 a Ha)).
         - rewrite (halloc_eta h3). cbv iota beta.
-          destruct (append_entry_gen h3 w (CComp (HSwaps (add_swaps w0f))) W3 C3 Sp3) as (J1 & J2 & J3 & J4 & J5).
+          destruct (append_entry_gen h3 w (CComp (HSwaps (add_swaps w0f))) W3 C3 Sp3) as (J1 & J2 & J3 & J4 & J5 & _).
           + intros a Ha E. specialize (Wsp (hc_spec w)). destruct (Fz3 a Ha) as (_ & Hlt). rewrite E in Hlt.
             assert (h_next h0 <=p hc_spec w) by (apply Wsp; unfold priv; simpl; auto). lia.
           + apply Forall_nil.
@@ -393,12 +407,14 @@ Section HeapP6.
       assert (P7 : prel h7 h7 c cf).
       { split; [apply hframe_refl|]. split; [exact W7|]. split; [eapply cwf_mono; [|exact Hc0]; exact Hh7|].
         split; [exact Hsc|]. split; [apply (abs_circ_stable h0 h7 c Hw0 (hframe_agree _ _ F07) Hc0)|].
-        split; [left; reflexivity|].
+        split; [left; reflexivity|]. split.
         intros a Ha. destruct (cwf_fields h0 c Hc0) as (L1 & _).
         rewrite (rd_list_agree h0 h7 _ (hframe_agree _ _ F07) L1) in Ha.
         rewrite (proj2 (abs_list_stable h0 h7 _ Hw0 (hframe_agree _ _ F07) (rd_list_below h0 _ Hw0))) in Ha.
         pose proof (inv_frozen _ I id c Hin a Ha) as Hno. split; [exact Hno|].
-        intros Hp'. apply Hno. exists id, c. split; assumption. }
+        intros Hp'. apply Hno. exists id, c. split; assumption.
+        intros a Ha. destruct (cwf_fields h0 c Hc0) as (L1 & _).
+        rewrite (rd_list_agree h0 h7 _ (hframe_agree _ _ F07) L1) in Ha. left. exact Ha. }
       destruct (anc_fold h7 m (sort_nat (dkeys (c_in w2f))) Hh7 (h7, c) cf P7) as (P8 & Fresh8).
       destruct (fold_left (h_anc_step o m) (sort_nat (dkeys (c_in w2f))) (h7, c)) as [h8 c'] eqn:Ea.
       cbn [fst snd] in P8, Fresh8.
@@ -414,7 +430,7 @@ Section HeapP6.
         destruct Fresh8 as (Fr8 & Nd8).
         { intros Hnil. apply sort_nat_nil in Hnil. discriminate. }
         apply her_fold; assumption. }
-      clearbody h9. destruct P9 as (F79 & W9 & C9 & Sp9 & A9 & Dj9 & Fz9).
+      clearbody h9. destruct P9 as (F79 & W9 & C9 & Sp9 & A9 & Dj9 & Fz9 & Pv9).
       pose proof (hframe_agree _ _ F79) as Ag79.
       (* add_modes_to_circuit_spec(spec, mode) *)
       assert (Bsp9 : below h9 sp) by (eapply below_mono; [apply F79|exact Bsp]).
@@ -518,14 +534,18 @@ Section HeapP6.
                      h_next h13 :: h_next h10 :: h_next h11 :: h_next h12 :: spec_cells h10 add_cs).
         { rewrite (proj2 (abs_comp_group h14 1 _ _ _ _ _ _ G14)). rewrite Rlst, Mem2. reflexivity. }
         assert (Lsp : hc_spec c' <p h_next h10) by (destruct (cwf_fields h10 c' C10) as (L1 & _); exact L1).
-        destruct (append_entry_gen h13 c' gc W13 C13 Sp9) as (J1 & J2 & J3 & J4 & J5).
+        destruct (append_entry_gen h13 c' gc W13 C13 Sp9) as (J1 & J2 & J3 & J4 & J5 & J6).
         + intros a Ha E. apply (proj2 (Fz13 a Ha)). rewrite E. unfold priv; simpl; auto.
         + unfold gc. cbn [cell_addrs]. repeat constructor; lia.
         + fold h14. rewrite Cg. intros b Hb E.
           destruct Hb as [<-|[<-|[<-|[<-|Hb]]]]; try lia.
           apply (proj2 (Fadd b Hb)). rewrite E. unfold priv; simpl; auto.
-        + cbv zeta in J1, J2, J3, J4, J5. fold h14 in J1, J2, J3, J4, J5.
+        + cbv zeta in J1, J2, J3, J4, J5, J6. fold h14 in J1, J2, J3, J4, J5, J6.
           set (h15 := h_append h14 (hc_spec c') (h_next h13)) in *.
+          split.
+          2:{ cbn [add_entries]. intros a Ha. rewrite J6 in Ha. apply in_app_or in Ha as [Ha|[<-|[]]].
+              - rewrite Rl13, Rl10 in Ha. exact (Pv9 a Ha).
+              - right. destruct F013 as (F & _). lia. }
           split.
           { unfold h15, h_append. apply hframe_write.
             - unfold h14. apply hframe_alloc. apply hframe_nil. exact F013.
@@ -553,6 +573,13 @@ Section HeapP6.
         destruct (abs_list_stable h10 h11 _ Q2 Ag1011 Bl10) as (Al11 & Cl11).
         destruct (cwf_fields h10 c' C10) as (L1 & L2 & L3 & L4 & L5 & L6).
         destruct Sp9 as (T1 & T2 & T3 & T4 & T5 & T6).
+        split.
+        2:{ cbn [add_entries]. intros a Ha. unfold set_spec_ref in Ha. cbn [hc_spec] in Ha. rewrite Rl in Ha.
+            apply in_app_or in Ha as [Ha|Ha].
+            - rewrite Rl10 in Ha. exact (Pv9 a Ha).
+            - right. assert (Hq : h_next h9 <=p a).
+              { assert (Hq5 := Q5 (Nat.lt_0_succ 1)). rewrite Forall_forall in Hq5. exact (Hq5 a Ha). }
+              destruct F07 as (F & _). destruct F79 as (F' & _). lia. }
         split; [apply hframe_nil; exact F011|]. split; [exact W11|]. split.
         { apply EF. rewrite EB. f_equal. rewrite <- A9, <- A10.
           unfold abs_circ, app_spec, set_spec, set_spec_ref.
@@ -580,5 +607,10 @@ Section HeapP6.
           intros [E|H]; [lia|]. apply H2. unfold priv. right. exact H. }
         apply Hfin. apply in_app_or in Ha as [Ha|Ha]; [exact (Fz10 a Ha)|exact (Fadd a Ha)].
     Qed.
+
+    Lemma h_add_post mode g :
+      upd_post p h0 c (fun cf => op_add o cf (abs_circ h0 s) mode g)
+               (fst (h_add o h0 c s mode g)) (snd (h_add o h0 c s mode g)).
+    Proof. apply h_add_post_full. Qed.
   End Add.
 End HeapP6.
